@@ -105,7 +105,16 @@ def main():
             else:
                 for t in R['theorems']:
                     ctx.obligations.append((t, False))
-        mod.run(ctx)
+        try:
+            mod.run(ctx)
+        except (Infra, SystemExit):
+            raise
+        except Exception:
+            # a crash of the harness after it has already recorded a violation with a concrete input (typically: the changed
+            # code returned garbage that a later stream could not digest) must not hide that violation
+            if not any(v.get('found_input') for v in ctx.violations):
+                raise
+            ctx.extra['harness_crash_after_violation'] = traceback.format_exc()[-1500:]
         rc = common.finish(ctx, R['theorems'], axioms,
                            checker_cmd='lake build ' + ' '.join('+' + m for m in R['modules']) + ' && lake env lean <#print axioms of the registered theorems>',
                            rule=R.get('rule', ''), exhaustive=ctx.extra.pop('exhaustive', False))
